@@ -251,20 +251,23 @@ mod enigma_line {
 			//  we may not use the count to index strings!, we must use the char_indices!
 			let line = &line[idents..];
 
+			// the fields of a line are separated by these characters, so only these are trimmed at its ends:
+			// any other white space character (a no-break space, say) is part of a name
+			const JAVA_WHITESPACE: [char; 6] = [' ', '\t', '\n', '\x0b', '\x0c', '\x0d'];
+
 			// if the line is a `COMMENT` then it may contain `#`, otherwise everything after `#` is a comment
 			let line = if line.starts_with(crate::enigma_file::COMMENT) {
 				line
 			} else if let Some((non_comment, _)) = line.split_once('#') {
-				non_comment.trim()
+				non_comment.trim_matches(JAVA_WHITESPACE)
 			} else {
-				line.trim()
+				line.trim_matches(JAVA_WHITESPACE)
 			};
 
-			if line.is_empty() {
+			if line.trim().is_empty() {
 				return Ok(None);
 			}
 
-			const JAVA_WHITESPACE: [char; 6] = [' ', '\t', '\n', '\x0b', '\x0c', '\x0d'];
 			let mut fields = line.split(JAVA_WHITESPACE).map(|x| x.to_owned());
 
 			let first_field = fields.next()
